@@ -196,7 +196,7 @@ func retype(v Val, t types.Type) Val {
 func (c *FnCtx) doAlloc(st *State, x *ssa.Alloc) {
 	t := x.Type().(*types.Pointer).Elem()
 	r := c.allocRefT(st, "new."+x.Comment, t)
-	if !x.Heap {
+	if !x.Heap || capturedLocallyOnly(x) {
 		if c.stackRefs == nil {
 			c.stackRefs = map[string]bool{}
 		}
@@ -860,7 +860,7 @@ func (c *FnCtx) binop(st *State, in ssa.Instruction, op token.Token, a, b Val, r
 	case token.SUB:
 		return scalar(rt, wrapAddSub(rt, "(- "+a.S+" "+b.S+")"))
 	case token.MUL:
-		return scalar(rt, wrapTo(rt, "(* "+a.S+" "+b.S+")"))
+		return scalar(rt, wrapTo(rt, c.mulTerm(a.S, b.S)))
 	case token.QUO:
 		c.safety(st, in, "divzero", not(eq(b.S, "0")), "division by non-zero")
 		return scalar(rt, wrapAddSub(rt, goDiv(a.S, b.S)))
